@@ -169,13 +169,7 @@ func lexModel(e *Env, r *Report) {
 		"abi <abi/4.0>,\n\ninclude <tunables/global>\n\n@{exec_path} = @{bin}/vgen-pre\nprofile vgen-pre @{exec_path} {\n  include <abstractions/base>\n\n  /etc/x r,\n}\n",
 		"@{exec_path} = @{bin}/vgen-bad @{undefined\nprofile vgen-bad {\n}\n",
 	}
-	for bi, b := range behs {
-		if bi%40 == 0 {
-			func() {
-				defer func() { _ = recover() }()
-				_, _ = (&aa.AppArmorProfileFile{}).Parse(primers[(bi/40)%len(primers)])
-			}()
-		}
+	one := func(b lexBeh) map[string]any {
 		rs := aa.Rules{}
 		for _, lr := range b.Rules {
 			rs = append(rs, lr.real())
@@ -209,9 +203,39 @@ func lexModel(e *Env, r *Report) {
 			text2 = strings.Join(again, "\n")
 		}()
 		text1 := strings.Join(texts, "\n")
-		recs = append(recs, map[string]any{"ev": "lex", "id": b.Mode + "|" + text1, "mode": b.Mode, "rules": b.Rules, "text": b.Text,
-			"rtext": lexAbs(text1), "crashed": crashed, "err": perr, "got": got, "text2": lexAbs(text2)})
+		return map[string]any{"ev": "lex", "id": b.Mode + "|" + text1, "mode": b.Mode, "rules": b.Rules, "text": b.Text,
+			"rtext": lexAbs(text1), "crashed": crashed, "err": perr, "got": got, "text2": lexAbs(text2)}
 	}
+	prime := func(k int) {
+		defer func() { _ = recover() }()
+		_, _ = (&aa.AppArmorProfileFile{}).Parse(primers[k%len(primers)])
+	}
+	firstJSON := make([]string, len(behs))
+	for bi, b := range behs {
+		if bi%40 == 0 {
+			prime(bi / 40)
+		}
+		rec := one(b)
+		jb, _ := json.Marshal(rec)
+		firstJSON[bi] = string(jb)
+		recs = append(recs, rec)
+	}
+	// second pass in the opposite order (another history): a rule must give the same result whatever
+	// was printed or parsed before it; only results that differ are added (and then judged like any other)
+	nHist := 0
+	for bi := len(behs) - 1; bi >= 0; bi-- {
+		if bi%40 == 7 {
+			prime(bi/40 + 1)
+		}
+		rec := one(behs[bi])
+		jb, _ := json.Marshal(rec)
+		if string(jb) != firstJSON[bi] {
+			rec["id"] = fmt.Sprint(rec["id"]) + "|second pass, reverse order"
+			recs = append(recs, rec)
+			nHist++
+		}
+	}
+	r.Coverage["lex_results_depending_on_history"] = nHist
 	r.Coverage["lex_round_trips"] = len(recs)
 	r.Sample(recs[len(recs)/2])
 	tp := filepath.Join(e.Scratch, "rulelex.ndjson")
